@@ -105,7 +105,7 @@ def generate(rng, tier):
                         k = -k                      # mirror: keep the interesting boundaries for '-' too
                     cases.append(_mk(kind, ver, v, p, k))
             # ---- hosts
-            for v in _values(rng, w, p, 2 * mult):
+            for v in _values(rng, w, p, (8 if w - p <= 3 else 2) * mult):      # the /30../32 and /126../128 conventions
                 cases.append(_mk('hosts', ver, v, p, LIMIT_FULL if w - p <= 8 else LIMIT_SMALL))
     return cases
 
